@@ -66,7 +66,17 @@ def rerun(ctx, rec):
 
 
 def confirm(ctx, f):
-    return rerun(ctx, f.payload["record"])[0]
+    if rerun(ctx, f.payload["record"])[0]:
+        return True
+    if f.payload["record"].get("ev") == "cls":
+        # not reproducible as the first classification of a process: the same message after messages of every kind have been
+        # classified (what a classification answers must not depend on what was classified before)
+        warm = dict(f.payload["record"], warm=True)
+        if rerun(ctx, warm)[0]:
+            f.payload["record"] = warm
+            f.what += " ; only after other messages have been classified in the same process (state kept between calls)"
+            return True
+    return False
 
 
 def replay(ctx, payload):
